@@ -253,3 +253,10 @@ def run(ctx):
     ctx.rule('C02.R9', 'the echo comparison sees the symbols as sent and received: neither is reassigned before it and it '
              'precedes the CRC update and the unescaping', minimum=2)
     c01.raw_symbol_rules(ctx, 'C02.R8', 'C02.R9')
+    ctx.borrow(c01.r7, {'C01.R7': 'C02.R10'},
+               'the CRC byte ebusd transmits is accumulated in the same register; a value left over from a stray symbol '
+               'before the SYN makes the first transmission of the next own telegram carry a wrong CRC')
+    import rules.C14 as c14
+    ctx.borrow(c14.run, {'C14.R3': 'C02.R11', 'C14.R4': 'C02.R12'},
+               'with an enhanced adapter the echo of every sent symbol and the slave response pass the frame decoder; a '
+               'symbol it drops makes a valid exchange fail')
